@@ -37,7 +37,7 @@ def oracle(tier, rng, deep=False):
     cc = sl.cc
     failures, samples = [], []
     ev = nontriv = 0
-    nrep = 16 if tier == "quick" and not deep else 120
+    nrep = 16 if tier == "quick" and not deep else (48 if tier == "quick" else 120)   # quick + broken obligation: 3x the quick search
 
     def null_grad(dname, DP, X, y, fi, unpen=None):
         """gradient at the null model with its optimal unpenalised part (intercept and unpenalised features), numerically"""
